@@ -147,7 +147,11 @@ impl<'a> Name<'a> {
                     return Ok(());
                 }
                 std::collections::hash_map::Entry::Vacant(e) => {
-                    e.insert(out.stream_position()? as usize);
+                    // a compression pointer has 14 bits: offsets beyond that cannot be referenced
+                    let offset = out.stream_position()? as usize;
+                    if offset <= usize::from(!POINTER_MASK_U16) {
+                        e.insert(offset);
+                    }
                     out.write_all(&[label.len() as u8])?;
                     out.write_all(&label.data)?;
                 }
